@@ -105,6 +105,19 @@ MUTATIONS = [
     ),
 ]
 
+# found by a white-box adversary (notes/adversary/C17_miss*.md): silent when found, caught since the
+# extensions described in notes/C17.md ("Extensions after the adversary round")
+A = "notes/adversary/"
+MUTATIONS += [
+    ("C17", "adv-single-valued-attributes-split-at-spaces", [("@patch", A + "C17_miss1.diff", 3)]),
+    ("C17", "adv-undescribed-resources-not-listed", [("@patch", A + "C17_miss2.diff", 3)]),
+    ("C17", "adv-uri-host-dropped-below-first-level", [("@patch", A + "C17_miss3.diff", 3)]),
+    ("C17", "adv-filter-comparison-case-folded", [("@patch", A + "C17_miss4.diff", 3)]),
+    ("C17", "adv-nested-listing-only-for-site-instances", [("@patch", A + "C17_miss5.diff", 3)]),
+    ("C17", "adv-put-delete-to-unknown-path-405", [("@patch", A + "C17_miss6.diff", 3)]),
+    ("C17", "adv-prefix-route-memo-not-cleared-on-add", [("@patch", A + "C17_miss7.diff", 3)]),
+]
+
 CONTROLS = [
     # same routing decision, remainder built without list.insert
     (
